@@ -32,6 +32,12 @@ type Case struct {
 	CutMsgs int         `json:"cut"`     // -1: no cut; n >= 0: sever the link n client messages before the close plan starts (0 = right before)
 	Plan    scn.Program `json:"plan"`    // close plan: goroutines of close-up / close-down / conn-close ops (repeats allowed)
 	Redial  string      `json:"redial"`  // instant | paced
+	// Stall: the broker stops reading right before the close plan (client writes block, as on a transport with back-pressure)
+	// and floods the client with FloodCalls end-to-end calls and stray call acks while the plan is blocked on its writes; it
+	// resumes reading StallMs later
+	Stall      bool `json:"stall,omitempty"`
+	FloodCalls int  `json:"flood_calls,omitempty"`
+	StallMs    int  `json:"stall_ms,omitempty"`
 }
 
 const promptness = 2 * time.Second
@@ -108,6 +114,26 @@ func run(c Case, k *ev.Case) *ev.Failure {
 		}
 	}
 	nPrefix := len(env.Records())
+	if c.Stall && !cut {
+		if l := w.CurrentLink(); l != nil {
+			l.StallWrites()
+			inc := w.Broker.CurrentInc()
+			var fwg sync.WaitGroup
+			fwg.Add(1)
+			go func() {
+				defer fwg.Done()
+				time.Sleep(time.Duration(c.StallMs) * time.Millisecond / 2)
+				for i := 0; i < c.FloodCalls; i++ {
+					inc.Send(&message.DownstreamCall{CallID: fmt.Sprintf("flood-%d", i), RequestCallID: "", SourceNodeID: "flooder", Name: "n", Type: "t", Payload: []byte("x")})
+					inc.Send(&message.UpstreamCallAck{CallID: fmt.Sprintf("nobody-%d", i), ResultCode: message.ResultCodeSucceeded, ResultString: "stray"})
+				}
+				time.Sleep(time.Duration(c.StallMs) * time.Millisecond / 2)
+				l.ResumeWrites()
+			}()
+			defer fwg.Wait()
+			k.Label("stalled-peer-with-call-flood")
+		}
+	}
 	env.Run(c.Plan)
 	planRecs := env.Records()[nPrefix:]
 	connClosed := false
@@ -293,6 +319,19 @@ func run(c Case, k *ev.Case) *ev.Failure {
 			return ev.Failf("C10.2 reconnect-after-close", "a new ConnectRequest arrived after the client's Disconnect").WithHistory(hist())
 		}
 	}
+	// 2b. no connection is kept: when Close has returned (and a redial that was in progress had its time), every transport the
+	// client dialled has been closed by the client (seeded change C10/m2: a redial completing during Close stayed connected)
+	{
+		for _, l := range w.Links() {
+			select {
+			case <-l.ClientClosed():
+			default:
+				if !l.Dead() {
+					return ev.Failf("C10.2 connection-left-open", "connection %d is still open at the client %d ms after Conn.Close returned (no Disconnect, transport not closed)", l.Index, 10*c.Cfg.PingMs).WithHistory(hist())
+				}
+			}
+		}
+	}
 	// 3. notifications at most once per object
 	evs := env.Events.Snapshot()
 	for n, v := range evs.UpClosed {
@@ -411,6 +450,8 @@ func gen(t *rapid.T) Case {
 	}
 	if rapid.IntRange(0, 2).Draw(t, "cut") == 0 {
 		c.CutMsgs = rapid.IntRange(0, 3).Draw(t, "cutmsgs")
+	} else if rapid.IntRange(0, 3).Draw(t, "stall") == 0 {
+		c.Stall, c.FloodCalls, c.StallMs = true, rapid.SampledFrom([]int{0, 5, 12, 40}).Draw(t, "flood"), rapid.SampledFrom([]int{10, 30}).Draw(t, "stallms")
 	}
 	// close plan
 	var closes []scn.Op
@@ -463,4 +504,7 @@ func TestRegress(t *testing.T) {
 		sub.One(t, Case{Cfg: cfg, Prefix: pre, CutMsgs: cut, Plan: scn.Program{{{Kind: "conn-close"}}}, Redial: "paced", Pending: []scn.Op{{Kind: "flush", Obj: "u0", CtxMs: 1500}}})
 		sub.One(t, Case{Cfg: cfg, Prefix: pre, CutMsgs: cut, Plan: scn.Program{nil}, Redial: "paced"})
 	}
+	// seeded change C10/m1: the peer stops reading, Close blocks on its Disconnect, calls keep arriving
+	sub.One(t, Case{Cfg: cfg, Prefix: pre, CutMsgs: -1, Plan: scn.Program{{{Kind: "conn-close"}}}, Redial: "paced", Stall: true, FloodCalls: 40, StallMs: 30})
+	sub.One(t, Case{Cfg: cfg, Prefix: pre, CutMsgs: -1, Plan: scn.Program{{{Kind: "close-up", Obj: "u0"}, {Kind: "conn-close"}}}, Redial: "paced", Stall: true, FloodCalls: 12, StallMs: 10})
 }
